@@ -10,6 +10,8 @@ CONSTANTS
   BodyPanics = TRUE
   BodyUsesPool = TRUE
   JoinerOnPool = FALSE
+  ReceiverDrops = FALSE
+  SkipIfReceiverGone = FALSE
 SPECIFICATION FairSpec
-INVARIANTS TypeOK ExactlyOnce ResultDelivery JoinedFirst SeqNoOverlap SeqAllFinished ConcNothingLeft JoinAfterExit
+INVARIANTS TypeOK ExactlyOnce ResultDelivery JoinedFirst SeqNoOverlap SeqAllFinished AllStartedAtJoin ConcNothingLeft JoinAfterExit
 PROPERTIES EventuallyStarted EventuallyPooledStarted JoinReturns ReceiverResolves
